@@ -5,6 +5,7 @@
      coordinates, END-style long spans, nested spans, several contigs per chunk, contigs
      spanning chunks) for every chunk size 1..n+1, vs Model.RegionIndex.create_index, and the
      extracted check_C12 (rows = specification rows computed in Z) on the real index;
+ (a') scale: stores of more than 10^6 / 2^20 records, chunk sizes that divide no round batch size;
  (b) end to end: generated VCFs with END-style lengths and small coordinates through
      vcf2zarr.convert, region_index vs the specification rows recomputed from the store's own
      contig / position / length arrays.
@@ -90,6 +91,56 @@ def part_a(ctx):
     shutil.rmtree(path, ignore_errors=True)
 
 
+def spec_rows_np(c, p, ln, cs):
+    """The statement of C12 computed directly (int64): one row per maximal contig run inside a variant chunk."""
+    c, p, e = c.astype(np.int64), p.astype(np.int64), p.astype(np.int64) + ln.astype(np.int64) - 1
+    n = len(c)
+    idx = np.arange(n)
+    brk = np.ones(n, dtype=bool)
+    brk[1:] = (c[1:] != c[:-1]) | (idx[1:] // cs != idx[:-1] // cs)
+    starts = np.flatnonzero(brk)
+    ends = np.append(starts[1:], n) - 1
+    return [[int(s // cs), int(c[s]), int(p[s]), int(p[t]), int(e[s:t + 1].max()), int(t - s + 1)] for s, t in zip(starts, ends)]
+
+
+def part_scale(ctx):
+    """Scale: stores of more than 1 000 000 / 2^20 records with chunk sizes that do not divide round batch sizes (a contig
+    run must stay ONE row however the implementation reads the arrays), checked against the direct statement."""
+    import zarr
+    from bio2zarr.vcf2zarr import vcz
+
+    r = ctx.rnd
+    path = os.path.join(ctx.work, "c12s.zarr")
+    for n, cs in ((1_000_030, 300_000), (1_048_600 + r.randint(0, 50), r.choice([65_537, 99_991, 250_007])))[: ctx.n(1, 2)]:
+        cuts = sorted(r.sample(range(1, n), 2))
+        c = np.zeros(n, dtype="i1")
+        c[cuts[0]:] = 1
+        c[cuts[1]:] = 3
+        p = (np.arange(n, dtype=np.int64) % 1_900_000 + 1).astype("i4")
+        ln = np.ones(n, dtype="i2")
+        ln[:: 9973] = 30_000
+        shutil.rmtree(path, ignore_errors=True)
+        root = zarr.open_group(path, mode="w")
+        for name, arr in (("variant_contig", c), ("variant_position", p), ("variant_length", ln)):
+            root.array(name, data=arr, chunks=(cs,), dtype=arr.dtype)
+        doc = dict(part="scale", records=n, chunk_size=cs, contig_changes=cuts)
+        ctx.case(doc, nontrivial=True)
+        ctx.count("scale")
+        w = SimpleNamespace(path=path, metadata=SimpleNamespace(dimension_separator=None))
+        try:
+            vcz.VcfZarrWriter.create_index(w)
+            rows = zarr.open_group(path, mode="r")["region_index"][:].tolist()
+        except Exception as e:  # noqa: BLE001
+            ctx.fail(doc, dict(error=f"{type(e).__name__}: {e}"[:200]), "create_index raised")
+            continue
+        want = spec_rows_np(c, p, ln, cs)
+        if rows != want:
+            bad = next((a, b) for a, b in zip(rows + [None], want + [None]) if a != b)
+            ctx.fail(doc, dict(first_difference=bad, rows=len(rows), expected_rows=len(want)),
+                     f"region index of a {n}-record store: row {bad[0]} differs from the specification row {bad[1]}")
+    shutil.rmtree(path, ignore_errors=True)
+
+
 def part_b(ctx):
     import zarr
     from bio2zarr import vcf2zarr
@@ -128,6 +179,7 @@ def part_b(ctx):
 
 def run(ctx):
     part_a(ctx)
+    part_scale(ctx)
     part_b(ctx)
 
 
